@@ -14,7 +14,7 @@ import tempfile
 import xml.etree.ElementTree as ET
 
 HERE = os.path.dirname(os.path.dirname(os.path.abspath(__file__)))
-WT = '/tmp/wt/confirm'
+WT = os.environ.get('VERIF_CONFIRM_WT', '/tmp/wt/confirm')
 
 
 def sh(*a, **k):
